@@ -79,6 +79,20 @@ def run_case(ctx, res, case, lines, post):
             rows.append([cc.scalar(ov.normalize(np.atleast_1d(np.float64(y[o])))) for o, ov in zip(out_names, out_vars)])
         return rows
 
+    def stored_rows(alpha, beta, grids):
+        """the data the surrogate was actually built from (C11 is about the derivative of the surrogate AS IT IS; whether the
+        stored data are the model's values is C05/C09's question) — falls back to fresh model calls when the store cannot be
+        read in tensor-node order"""
+        try:
+            _, yi = comp.training_data.get(tuple(alpha), tuple(beta)[:len(comp.data_fidelity)], y_vars=list(out_names))
+            cols = [np.asarray(yi[o], dtype=float).reshape(-1) for o in out_names]
+            n = len(list(cc.product_points(grids)))
+            if all(len(c) == n for c in cols) and not any(np.isnan(c).any() for c in cols):
+                return [[float(c[r]) for c in cols] for r in range(n)]
+        except Exception:  # noqa: BLE001
+            pass
+        return fresh_rows(alpha, grids)
+
     def band_of(k):
         return band[k]
 
@@ -129,7 +143,7 @@ def run_case(ctx, res, case, lines, post):
         grids = cc.grids_for(comp, b)
         key = cc.idx_key(a, b)
         lines.append(f'itp.autostate {key} | ' + cc.mat_str(grids)); post.append(None)
-        lines.append(f'itp.data {key} | ' + cc.mat_str(fresh_rows(a, grids))); post.append(None)
+        lines.append(f'itp.data {key} | ' + cc.mat_str(stored_rows(a, b, grids))); post.append(None)
         lines.append(f'itp.coef {key} {w}'); post.append(None)
     hlist = [list(a) + list(b) for a, b in hist]
     ymax = max([1e-300] + [abs(v) for (a, b) in iset for r in fresh_rows(a, cc.grids_for(comp, b)) for v in r])
